@@ -143,7 +143,7 @@ func c19NewReplica(t *testing.T, col *Collector, name string, h lHist, disk bool
 	}
 	r.w = c19Boot(t, r.db, r.home)
 	w := r.w
-	r.m = NewMarket(w, DefaultMarketOpts())
+	r.m = NewMarket(w, lMarketOpts(h)) // two-pool market (aweth, second oracle pool) when the history asks for it
 	m := r.m
 	// burner: burn at the end of every five-minute epoch
 	m.must("burner params", w.Deliver(&burnertypes.MsgUpdateParams{Authority: w.Gov, Params: burnertypes.Params{EpochIdentifier: epochstypes.FiveMinutesEpochID}}))
@@ -210,6 +210,7 @@ type c19Hist struct {
 	Cuts []int `json:"cuts"` // restart replica C after the n-th committed block of the history (0-based); nil + All = every block
 	All  bool  `json:"all,omitempty"`
 	Disk bool  `json:"disk,omitempty"`
+	Two  bool  `json:"two,omitempty"` // lHist.Two
 }
 
 func c19GenHist(r *Rng, id int, everyHeight bool) c19Hist {
@@ -237,7 +238,7 @@ func c19GenHist(r *Rng, id int, everyHeight bool) c19Hist {
 			ops = append(ops, lOp{Op: "c19_feed", P: []string{"0.9", "0.97", "1.03", "1.1"}[r.Intn(4)], Rel: r.Intn(8)})
 		}
 	}
-	h := c19Hist{ID: id, Ops: ops, All: everyHeight, Disk: id%4 == 3}
+	h := c19Hist{ID: id, Ops: ops, All: everyHeight, Disk: id%4 == 3, Two: base.Two}
 	if !everyHeight {
 		// 4 restart points; the number of blocks of a history is about half its length
 		n := len(ops)/2 + 4
@@ -485,7 +486,7 @@ type c19Obs struct {
 }
 
 func c19RunHistory(t *testing.T, col *Collector, h c19Hist, live []c19LiveField) {
-	lh := lHist{ID: h.ID, Ops: h.Ops}
+	lh := lHist{ID: h.ID, Ops: h.Ops, Two: h.Two}
 	reps := []*c19Replica{
 		c19NewReplica(t, col, "A", lh, false),
 		c19NewReplica(t, col, "B", lh, false),
@@ -619,11 +620,7 @@ func c19RunHistory(t *testing.T, col *Collector, h c19Hist, live []c19LiveField)
 			continue
 		case "price":
 			for _, r := range reps {
-				np := r.m.Prices[ATOM].Mul(dec(op.P))
-				if np.LT(dec("0.05")) || np.GT(dec("500")) {
-					np = dec("5")
-				}
-				r.m.SetPrice(ATOM, np)
+				r.x.movePrice(op) // the asset of the pool the op names (uatom, or aweth on a two-pool market)
 			}
 			col.Op("price", "ok", nil)
 			continue
